@@ -25,8 +25,8 @@ from vf import core, recgen
 THEOREMS = [
     "C14_generated_cfg_ok", "C14_base64_roundtrip", "C14_iso_roundtrip", "C14_value_roundtrip", "C14_roundtrip",
     "C14_roundtrip_nonfinite_partial", "C14_lines_are_documents", "C14_lines_plain_json",
-    "C14_no_descriptors_readable", "C14_scalars_preserved", "C14_nonfinite_not_plain_refuted",
-    "C14_nan_payload_refuted", "C14_hyp_satisfiable",
+    "C14_no_descriptors_readable", "C14_scalars_preserved", "C14_comparisons_sound",
+    "C14_nonfinite_not_plain_refuted", "C14_nan_payload_refuted", "C14_hyp_satisfiable",
 ]
 
 SCALARS = ["string", "wstring", "uri", "varint", "filesize", "unix_file_mode", "uint16", "uint32", "boolean", "float",
@@ -433,9 +433,22 @@ def obs(r):
     return recgen.canon(recgen.obs_record(r))
 
 
+def safe_repr(v):
+    """repr() of a field value (filesize.__repr__ raises for huge values: C20 finding, not ours)"""
+    try:
+        return repr(v)
+    except Exception:  # noqa
+        if isinstance(v, list):
+            return "[" + ", ".join(safe_repr(x) for x in v) + "]"
+        for base in (int, float, str, bytes):
+            if isinstance(v, base):
+                return base.__repr__(v)
+        return "<%s>" % type(v).__name__
+
+
 def rec_repr(r):
     return dict(type=r._desc.name, fields=[list(f) for f in r._desc.get_field_tuples()],
-                values={n: repr(getattr(r, n)) for _, n in all_fields(r._desc)})
+                values={n: safe_repr(getattr(r, n)) for _, n in all_fields(r._desc)})
 
 
 class Failure(Exception):
@@ -509,19 +522,18 @@ def check_plain_readback(records, trees, back):
             v = getattr(p, n)
             if j[0] in ("arr", "obj"):
                 if not (t == "string" and isinstance(v, str) and str.__str__(v) == str(tree_py(j))):
-                    raise Failure("plain-nonscalar", "fallback record %d field %s: %r" % (i, n, v))
+                    raise Failure("plain-nonscalar", "fallback record %d field %s: %s" % (i, n, safe_repr(v)))
                 opq[n] = j
                 continue
             want_t = {"str": "string", "int": "varint", "float": "float", "nf": "float", "bool": "boolean", "null": "string"}[j[0]]
-            want_o = {"str": lambda: ("str", recgen.enc_text(j[1])), "int": lambda: ("int", j[1]), "float": lambda: ("float", j[1]),
-                      "nf": lambda: ("float", recgen.float_bits(tree_py(j))), "bool": lambda: ("bool", j[1]), "null": lambda: ("none",)}[j[0]]()
+            want_o = recgen.obs_value(want_t, tree_py(j))      # the deep observation of the plain python value
             try:
                 got_o = recgen.obs_value(t, v)
             except recgen.Unobservable as e:
                 got_o = ("unobservable", str(e))
             if t != want_t or got_o != want_o:
-                raise Failure("plain-scalar", "descriptors=false: field %s of record %d is written as the JSON value %r but reads back as %s %r" % (
-                    n, i, tree_py(j), t, v), dict(json=repr(j), read_type=t, read_value=repr(v)))
+                raise Failure("plain-scalar", "descriptors=false: field %s of record %d is written as the JSON value %r but reads back as %s %s" % (
+                    n, i, tree_py(j), t, safe_repr(v)), dict(json=repr(j), read_type=t, read_value=safe_repr(v)))
         for n, want in (("_source", r._source), ("_classification", r._classification)):
             if getattr(p, n) != want:
                 raise Failure("plain-reserved", "fallback record %d: %s = %r, expected %r" % (i, n, getattr(p, n), want))
@@ -683,6 +695,50 @@ def probe_split_pair(ctx, tmpd, kf):
                           dict(kind="sequence", cls="split-surrogate-pair", probe="split-pair"))
 
 
+def probe_nan_payload(ctx, tmpd, kf):
+    """a NaN with a non-default payload: written as the token NaN, read back as the quiet NaN"""
+    from flow.record import RecordDescriptor
+    D = RecordDescriptor("probe/nanpayload", [("float", "f")])
+    weird = struct.unpack(">d", bytes.fromhex("7ff8000000000001"))[0]
+    r = D(f=weird, _generated=recgen.T0)
+    if recgen.float_bits(r.f) != 0x7FF8000000000001:
+        return      # the platform does not keep the payload in the first place
+    path = os.path.join(tmpd, "nanp.json")
+    write_impl([r], path, "direct", True, None)
+    back = read_impl(path, "direct")
+    ctx.count_case(("probe", "nan-payload"))
+    if recgen.float_bits(back[0].f) != 0x7FF8000000000001:
+        f = core_known(kf, dict(cls="non-finite-float"))
+        if f:
+            ctx.known_finding(f["id"], f["what"])
+        else:
+            ctx.violation("a NaN with payload 0x7ff8000000000001 reads back as %#x" % recgen.float_bits(back[0].f),
+                          dict(kind="sequence", cls="non-finite-float", probe="nan-payload"))
+
+
+def probe_notes(ctx, tmpd):
+    """behaviour outside the property's claim, recorded in the evidence only"""
+    import sys
+
+    from flow.record import RecordDescriptor
+    from flow.record.fieldtypes import path as frpath
+    D = RecordDescriptor("probe/notes", [("path", "p"), ("varint", "n")])
+    pth = os.path.join(tmpd, "notes.json")
+    write_impl([D(p=frpath.from_windows("c:\\x\\y"), _generated=recgen.T0)], pth, "direct", True, None)
+    back = read_impl(pth, "direct")
+    ctx.notes.append("outside the claim: a Windows-flavoured path %r is read back as %s (%r) -- the property only claims POSIX paths" % (
+        "c:\\x\\y", type(back[0].p).__name__, str(back[0].p)))
+    lim = sys.get_int_max_str_digits()
+    if lim:
+        try:
+            write_impl([D(n=10 ** lim, _generated=recgen.T0)], pth, "direct", True, None)
+            res = "written"
+        except ValueError as e:
+            res = "json.dumps raises ValueError (%s)" % str(e)[:60]
+        ctx.notes.append("environment limit: an integer of %d digits: %s -- CPython's sys.get_int_max_str_digits()=%d bounds "
+                         "'integers of any size' for every text format" % (lim + 1, res, lim))
+
+
 # ------------------------------------------------------------------------------------------------
 
 def report_failure(ctx, e, tag, records, seed_info):
@@ -749,7 +805,7 @@ def run(ctx):
     if not ok:
         return
     tmpd = tempfile.mkdtemp(prefix="c14.", dir=str(ctx.work))
-    n_random = 60 if ctx.tier == "quick" else 600
+    n_random = 140 if ctx.tier == "quick" else 1200
     coq_cases, metas = [], []
     seqs = {}
     for tag, recs, info in sequences_for(ctx, n_random):
@@ -771,8 +827,10 @@ def run(ctx):
         if len(ctx.coverage["samples"]) < 4 and tag in ("all-types", "s0", "s1", "identifier-collision"):
             ctx.sample(dict(tag=tag, records=[rec_repr(r) for r in recs][:2]))
     probe_split_pair(ctx, tmpd, kf)
+    probe_nan_payload(ctx, tmpd, kf)
+    probe_notes(ctx, tmpd)
     # model = implementation, evaluated inside Coq
-    failing, err = core.eval_bool_cases(ctx, HEADER, coq_cases, shard_size=25, name="c14")
+    failing, err = core.eval_bool_cases(ctx, HEADER, coq_cases, shard_size=15, name="c14")
     if err:
         ctx.violation("correspondence shards did not evaluate: " + err[:300], dict(kind="coq-eval", log=err), no_input=True)
         return
@@ -797,8 +855,12 @@ def replay(obj):
         def count_case(self, *a, **k):
             pass
 
+        seen = set()
+
         def known_finding(self, fid, what):
-            print("KNOWN-FINDING: property=C14 %s" % what)
+            if fid not in self.seen:
+                self.seen.add(fid)
+                print("KNOWN-FINDING: property=C14 %s" % what)
 
         def violation(self, what, o, no_input=False):
             print("# " + what)
@@ -812,6 +874,9 @@ def replay(obj):
     try:
         if obj.get("probe") == "split-pair":
             probe_split_pair(c, tmpd, [])
+            return 1 if c.bad else 0
+        if obj.get("probe") == "nan-payload":
+            probe_nan_payload(c, tmpd, [])
             return 1 if c.bad else 0
         if "probe" in obj:
             recs = dict(fixed_sequences())[obj["probe"]]
